@@ -471,7 +471,7 @@ def abi_names(fb):
             for k, a in c.adts.items():
                 if 'size' not in a or not a.get('variants'):
                     continue
-                which = 'hdr' if k.endswith('::ShmHeader') else 'rec' if k == 'clock_bound_shm::ClockErrorBound' else None
+                which = 'hdr' if k.endswith('::ShmHeader') else 'rec' if (k.startswith('clock_bound_shm::') and k.endswith('::ClockErrorBound')) else None
                 if which is None:
                     continue
                 table = HDR_ROLE_AT if which == 'hdr' else REC_ROLE_AT
